@@ -245,24 +245,29 @@ def rule_memo(ctx):
         if adt not in f.adts:
             continue
         root = b.d.get('root') or b.path
-        for pt, role, pl, node in b.places():
+        from .eqhash import cone as _cone
+        members = [m for rt, ms in _cone(f, b, adt).items() if rt not in accessors for m in ms]
+        for m_ in members:
+          b_ = m_
+          for pt, role, pl, node in b_.places():
             for i, x in enumerate(pl['pr']):
-                if isinstance(x, dict) and (x.get('o'), x.get('n')) in cache_set:
-                    # allowed only as the receiver of get_or_init (checked in (i)) -> here: find how the borrow is used
-                    fld = x['n']
-                    ok = False
-                    if node['k'] == 'assign' and node['r']['k'] == 'ref':
-                        dest = node['p']['l']
-                        for pt2, t2 in b.calls():
-                            if t2.get('callee') and t2['args'] and t2['args'][0]['k'] in ('move', 'copy') and \
-                               t2['args'][0]['p']['l'] == dest and not t2['args'][0]['p']['pr']:
-                                if t2['callee']['name'] in ('get_or_init', 'deref'):
-                                    ok = True
-                    r.site('%s touches cache field %s' % (b.path, fld), node.get('s', b.span()), 'ok' if ok else 'violation')
-                    if not ok:
-                        r.violation('%s:reads-cache:%s' % (b.path, fld), node.get('s', b.span()), b.path,
-                                    '%s reads cache field `%s` directly (not through a memo accessor): two equal values compare/hash '
-                                    'differently depending on which observers were called' % (b.d.get('impl_trait'), fld),
-                                    derived=b.d.get('derived'))
+                  if isinstance(x, dict) and (x.get('o'), x.get('n')) in cache_set:
+                      # allowed only as the receiver of get_or_init (checked in (i)) -> here: find how the borrow is used
+                      fld = x['n']
+                      ok = False
+                      if node['k'] == 'assign' and node['r']['k'] == 'ref':
+                          dest = node['p']['l']
+                          for pt2, t2 in b_.calls():
+                              if t2.get('callee') and t2['args'] and t2['args'][0]['k'] in ('move', 'copy') and \
+                                 t2['args'][0]['p']['l'] == dest and not t2['args'][0]['p']['pr']:
+                                  if t2['callee']['name'] in ('get_or_init', 'deref'):
+                                      ok = True
+                      r.site('%s touches cache field %s' % (b.path, fld), node.get('s', b_.span()), 'ok' if ok else 'violation')
+                      if not ok:
+                          r.violation('%s:reads-cache:%s' % (b.path, fld), node.get('s', b_.span()), b.path,
+                                      '%s reads cache field `%s` directly (not through a memo accessor): two equal values compare/hash '
+                                      'differently depending on which observers were called' % (b.d.get('impl_trait'), fld),
+                                      derived=b.d.get('derived'))
+
     r.check_floor()
     return r
